@@ -545,6 +545,16 @@ class Lane(LaneBase):
                 last_mut = (arg[0], outcome)
                 warm_at_mut = occ_before if ('1' in occ_before and (changed or res != 'ok')) else None
             else:
+                if (i + len(case['steps'])) % 3 == 0:
+                    # read-only look-ups of things that are not there (they touch no memoised attribute, so the model
+                    # has no event for them): they must not change any later answer
+                    for f in (lambda: g.get_nodes_for_variable_name('__absent'), lambda: g.get_nodes_at_lag(-97),
+                              lambda: g.edge_exists('__absent', '__absent2'), lambda: g.get_edges(source='__absent'),
+                              lambda: g.get_edges(destination='__absent'), lambda: g.node_exists('__absent')):
+                        try:
+                            f()
+                        except Exception:  # noqa: BLE001
+                            pass
                 call, ans, bad = do_reader(g, arg)
                 tags.add('reader:' + arg)
                 if call is not None:
